@@ -28,6 +28,8 @@ def tok(v, ty):
         return "l0" if not v else "l:" + ",".join(x.encode("utf-8").hex() for x in v)
     if ty in ("pw", "pm"):
         return "o:" + (v if v is not None else "null")
+    if ty == "font":
+        return "f:%s,%d,%d,%d%d%d%d%d" % (v["family"].encode("utf-8").hex(), v["pointSize"], v["weight"], v["italic"], v["bold"], v["underline"], v["strikeOut"], v["kerning"])
     raise ValueError(ty)
 
 
@@ -245,11 +247,11 @@ def has_read(x):
 # ---------------------------------------------------------------- generation
 
 SRC = {  # readable sources by type: (class that declares it, property, layer)
-    "int": [("SimWidget", "intVal", 0), ("SimWidget", "mid1", 1)],
+    "int": [("SimWidget", "intVal", 0), ("SimWidget", "pickVal", 0), ("SimWidget", "mid1", 1)],
     "uint": [("SimWidget", "uintVal", 0)],
     "double": [("SimWidget", "realVal", 0)],
-    "bool": [("SimWidget", "flag", 0), ("SimWidget", "midFlag", 1)],
-    "string": [("SimWidget", "text", 0), ("SimWidget", "midText", 1)],
+    "bool": [("SimWidget", "flag", 0), ("SimWidget", "flag2", 0), ("SimWidget", "midFlag", 1)],
+    "string": [("SimWidget", "text", 0), ("SimWidget", "text2", 0), ("SimWidget", "midText", 1)],
     "mode": [("SimWidget", "mode", 0)],
     "opts": [("SimWidget", "opts", 0)],
     "strlist": [("SimWidget", "items", 0)],
@@ -553,9 +555,29 @@ class Gen:
     def gen_block(self, ty, depth):
         r = self.r
         k = r.weighted([(3, "local-obj"), (2, "if-assign"), (2, "switch"), (2, "guard-let"), (1, "same-block"), (1, "const"),
-                        (3, "reassign-straight"), (1, "two-locals"), (2, "read-around-branch"), (1, "reassign-named")])
+                        (3, "reassign-straight"), (1, "two-locals"), (2, "read-around-branch"), (1, "reassign-named"), (3, "two-props")])
+        pairs = {"int": ("intVal", "pickVal"), "string": ("text", "text2"), "bool": ("flag", "flag2")}
         self.locals_ctr += 1
         v = "v%d" % self.locals_ctr
+        if k == "two-props" and ty in pairs:
+            # exclusive paths reading DIFFERENT notifying properties of the SAME dynamically reached object:
+            # each path needs its own subscription although the object (and its address) is the same
+            a, na = self.obj_widget(1)
+            self.pins |= na | {(self.base_name(a), "peer")}
+            o = ["prop", a, "peer"]
+            p1, p2 = pairs[ty]
+            if r.chance(0.5):
+                p1, p2 = p2, p1
+            c = self.dyn_bool()
+            form = r.below(4)
+            if form == 0:
+                return {"kind": "expr", "expr": ["tern", c, ["prop", o, p1], ["prop", o, p2]]}
+            if form == 1:
+                return {"kind": "block", "stmts": [["if", c, [["return", ["prop", o, p1]]], None], ["return", ["prop", o, p2]]]}
+            if form == 2:
+                return {"kind": "block", "stmts": [["let", v, o], ["if", c, [["return", ["prop", ["local", v], p1]]], [["return", ["prop", ["local", v], p2]]]]]}
+            return {"kind": "block", "stmts": [["let", v, o], ["switch", ["cast", "int", c], [[["lit", "int", 0], [["return", ["prop", ["local", v], p1]]]],
+                                                                                               [None, [["return", ["prop", ["local", v], p2]]]]]]]}
         if ty in ("pw",):
             k = "if-assign-obj"
         if k == "same-block" and SRC.get(ty):
@@ -709,6 +731,9 @@ class Gen:
                      ("textChanged", "onTextChanged", [("QString", "string")], "notify")]
             if cls == "SimPanel":
                 sigs.append(("levelChanged", "onLevelChanged", [("int", "int")], "notify"))
+            # re-entrant handlers: the first statement makes the sender overwrite (and re-emit) the very value it is
+            # emitting, later statements use the parameter - which must still be the value of THIS emission
+            sigs += [("pickValChanged", "onPickValChanged", [("int", "int")], "rewrite"), ("pickFontChanged", "onPickFontChanged", [("QFont", "font")], "rewrite")]
         if cls in sc.BY_NAME and sc.BY_NAME[cls].get("real"):
             sigs = []
             chain = [c["name"] for c in sc.class_chain(cls)]
@@ -736,8 +761,10 @@ class Gen:
         if not sigs:
             return None
         name, on, args, tag = r.choice(sigs)
-        is_notify = tag == "notify"
+        is_notify = tag in ("notify", "rewrite")
         nparams = r.randint(0, len(args))
+        if tag == "rewrite":
+            return self.gen_rewrite_handler(owner, cls, name, on, args)
         form = "function" if nparams > 0 else r.choice(["function", "block", "expr"])
         params = []
         self.param_env = {}
@@ -764,6 +791,28 @@ class Gen:
             self.param_env = {}
             self.notify_after = None
         return {"notify": is_notify, "signal": name, "sigkey": sigkey, "on": on, "params": params, "form": form, "body": body, "argtypes": [a[1] for a in args]}
+
+    def gen_rewrite_handler(self, owner, cls, name, on, args):
+        r = self.r
+        prop = name[:-len("Changed")]
+        pty = args[0][1]
+        idx = self.objs.index(owner) if owner in self.objs else len(self.objs)
+        later = [o["id"] for o in self.objs[idx + 1:] if o.get("id") and o["cls"] in ("SimWidget", "SimPanel")]
+        others = [i for i, c in self.named if i != owner.get("id")]
+        if not others:
+            return None
+        stmts = [["setprop", None, prop, ["prop", ["obj", r.choice(others)], prop]]]      # own source := another object's
+        if later:
+            stmts.append(["setprop", ["obj", r.choice(later)], prop, ["local", "p0"]])   # then hand on what THIS emission carried
+        if pty == "int":
+            stmts.append(["log", "info", [["lit", "string", "picked"], ["local", "p0"]], "info"])
+            if later and r.chance(0.5):
+                stmts.append(["setprop", ["obj", r.choice(later)], "intVal", ["bin", "int", "+", ["local", "p0"], ["lit", "int", 1]]])
+        elif not later:
+            return None        # a QFont cannot be logged; without a later object nothing would use the parameter
+        sigkey = "%s(%s)" % (name, args[0][0])
+        return {"notify": True, "rewrite": True, "signal": name, "sigkey": sigkey, "on": on, "params": [["p0", args[0][0]]], "form": "function",
+                "body": {"kind": "block", "stmts": stmts}, "argtypes": [pty]}
 
     def hval(self, ty):
         """value expression inside a handler: parameters, literals, reads of any layer"""
